@@ -229,20 +229,14 @@ before they are written: whatever order a `set` is enumerated in
 (`enum₁`, `enum₂`: two enumerations of the same elements), the sorted array
 is the same.
 
-PARTIAL.  Full statement (DESIGN §5 C04 `enum_indep`): with every `set → list`
-site on the data path (`create_marker_cache_from_specified_markers`,
-`write_query_markers_to_h5`, `get_all_leaf_pairs` siblings,
-`_get_leaves_from_tree`, `set(assignment)` in `run_type_assignment`,
-`clean_for_json`) taking an `enumOrder` parameter, the outputs of the stages
-are invariant under every `enumOrder`.
-  -- theorem enum_indep_full : ∀ enumOrder₁ enumOrder₂, stageOutput enumOrder₁ = stageOutput enumOrder₂
-What is missing: those sites are not modelled one by one in `Model/Procs.lean`
-(they belong to the marker / election models of other groups); proved here is
-the lemma each of them relies on - the enumeration is sorted (or only used for
-membership) before use.  The sites are exercised end to end by the
-PYTHONHASHSEED runs and `write_query_markers_to_h5` / `clean_for_json`
-differentially (harness/props/c04.py). -/
-theorem enum_indep_partial (enum₁ enum₂ : List Nat) (hp : enum₁.Perm enum₂) :
+This is the lemma every `set → list` site relies on; the sites themselves
+(marker cache, taxonomy child lists, `set(assignment)`, `aggregate_votes`,
+`clean_for_json`) are treated one by one on the owning groups' model functions
+in `CTM/Props/C04/Enum.lean` (`enum_indep_markers`, `enum_indep_tree_children`,
+`enum_indep_tree_leaves`, `enum_indep_tree_pairs`, `enum_indep_assignment_set`,
+`enum_indep_aggregate`, `enum_indep_clean_for_json`) and composed for the
+mapping stage in `enum_indep_mapping`. -/
+theorem enum_indep_sorted (enum₁ enum₂ : List Nat) (hp : enum₁.Perm enum₂) :
     sortKeys enum₁ = sortKeys enum₂ :=
   sortKeys_perm hp
 
